@@ -117,7 +117,24 @@ ARGS = {
 }
 
 
+ENUM_BASES = ["w_spec", "w_calcval", "w_react", "h_basic"]
+ENUM_SPAN = 900
+
+
 def generate(rng, tier, index):
+    plan = generate_random(rng, tier, index)
+    if tier == "thorough" and index < 2 * len(ENUM_BASES) * ENUM_SPAN:
+        # exhaustive part: the input file ends (EOF) or fails (EIO) at every byte offset of four short inputs
+        j = index // ENUM_SPAN
+        base = ENUM_BASES[j % len(ENUM_BASES)]
+        n = len(base_text(base))
+        pos = index % ENUM_SPAN
+        plan.update({"family": "file", "base": base, "entry": "file", "edits": [], "fault": {"kind": "read_eof_input" if j < len(ENUM_BASES) else "read_eio_input", "at": min(pos, n) / float(max(n, 1)), "sink": "Output", "param": 1}, "enumerated": pos < n})
+        plan.pop("arg", None)
+    return plan
+
+
+def generate_random(rng, tier, index):
     fam = rng.choice(["input", "input", "input", "input", "database", "file", "file", "alloc", "args"])
     base = rng.choice(BASES)
     plan = {"prop": PROP, "family": fam, "base": base, "entry": rng.choice(["string", "string", "file", "acc"]), "edits": [], "fault": None,
@@ -266,6 +283,8 @@ def check_plan(ctx, plan):
     rep = Report()
     fam = plan["family"]
     rep.count("family:" + fam)
+    if plan.get("enumerated"):
+        rep.count("enumerated_eof_offsets")
     db1 = base_db(plan["base"]) if fam != "database" else PHREEQC_DAT
     k = None
     if fam == "alloc":
